@@ -230,7 +230,8 @@ def serializeUpTo (C : Crypto) (tr : Tree) (t : Token) : Bytes :=
 
 /-- Token.unserialize at every multiple of the chunk size; `false` = the last chunk is short (struct.error).
     Field widths and the chunk size come from the GENERATED constants (struct format of Token.unserialize,
-    `chunk_size` of unserialize_public). -/
+    `chunk_size` of unserialize_public).  The step is `chunk_size`; the extra `1 - chunk_size` is 0 for every
+    positive chunk size and only keeps the recursion well-founded for a zero one (Python's `range` raises there). -/
 def parseChunks (sigLen : Nat) (s : Bytes) : List Token × Bool :=
   if s.isEmpty then ([], true)
   else if s.length < Gen.prevLen + Gen.chashLen + sigLen then ([], false)
